@@ -4,9 +4,12 @@ Tie: random (and a few hand-picked) histories of Catalog.build_trees (3 edge set
 sides, unbinned, forced / unforced, requests that raise), real yaw.autocorrelate /
 yaw.crosscorrelate calls (catalogs change role between reference and unknown, several scale
 sets) and Catalog(cache) reopenings are run on three small catalogs whose redshifts sit on the
-bin edges.  After every operation the `binning` file (as BinnedTrees decodes it) and the
-unpickled trees.pkl (tuple or single tree, records per tree) of every patch are compared
-inside Coq with the state of Model/TreeCache.v (c07_case).  Every history ends with a
+bin edges; histories also contain builds of ONE patch (the public per-patch call
+BinnedTrees.build(catalog[p], Binning | None, force=...), first / last / any patch), which leave
+the patches of one catalog with trees for different binnings.  After every operation the
+`binning` file (as BinnedTrees decodes it) and the unpickled trees.pkl (tuple or single tree,
+records per tree) of every patch are compared inside Coq with the per-patch state vector of
+Model/TreeCache.v (c07_ccase).  Every history ends with a
 measurement whose CorrFunc list is compared (`==` and bitwise on every counts / sum_weights
 array) with the same measurement on freshly created caches of the same data.
 """
@@ -68,14 +71,17 @@ def gen_data(dseed):
     for name in CATS:
         cols = dict(ra=[], dec=[], pid=[], z=[], w=[])
         for k in range(npatch):
-            for _ in range(npairs):
+            for j in range(npairs):
                 dx, dy = prng.randrange(-16, 17) / 16.0, prng.randrange(-16, 17) / 16.0
+                if j == 0:
+                    dx = 1.0   # one pair at full distance: the patch radius is >= 1 deg in every catalog
+                w = prng.randrange(1, 9) / 4.0   # same weight for both members: the (weighted) centre stays put
                 for s in (1, -1):
                     cols["ra"].append(CENTERS[k][0] + s * dx)
                     cols["dec"].append(CENTERS[k][1] + s * dy)
                     cols["pid"].append(k)
                     cols["z"].append(prng.choice(Z_ON_EDGE) if prng.random() < 0.75 else prng.choice(Z_OTHER))
-                    cols["w"].append(prng.randrange(1, 9) / 4.0)
+                    cols["w"].append(w)
         data[name] = dict(cols=cols, weights=prng.random() < 0.5)
     return data
 
@@ -102,23 +108,32 @@ def participants(op):
     return out
 
 
-def requests(op):
-    """catalog name -> (coq op, requested binning or None when nothing is requested / it raises)
-    binning = None (unbinned) or (edges, closed)"""
+def patch_index(op, npatch):
+    """build_patch ops name the patch by an integer taken modulo the number of patches (-1 = last)"""
+    return op["patch"] % npatch
+
+
+def requests(op, npatch=3):
+    """catalog name -> (coq catalog-level op, requested binning or None when nothing is requested /
+    it raises); binning = None (unbinned) or (edges, closed)"""
     kind = op["op"]
     if kind == "build":
         b = None if op["edges"] is None else (EDGE_SETS[op["edges"]], op["closed"])
-        return {op["cat"]: (coq_build(b, op["force"]), ("req", b))}
+        return {op["cat"]: ("(All (%s))" % coq_build(b, op["force"]), ("req", b))}
+    if kind == "build_patch":
+        b = None if op["edges"] is None else (EDGE_SETS[op["edges"]], op["closed"])
+        return {op["cat"]: ("(One %s %s %s)" % (fq.nat(patch_index(op, npatch)), coq_binning(b), fq.b(op["force"])),
+                            ("req", b))}
     if kind == "build_invalid":
         b = (INVALID_EDGES[op["edges"]], op["closed"])
-        return {op["cat"]: (coq_build(b, False), None)}
+        return {op["cat"]: ("(All (%s))" % coq_build(b, False), None)}
     if kind == "reopen":
-        return {op["cat"]: ("Reopen", None)}
+        return {op["cat"]: ("(All Reopen)", None)}
     c = op["cfg"]
     out = {}
     for name, role in participants(op).items():
         b = (EDGE_SETS[c["edges"]], c["closed"]) if role == "ref" else None
-        out[name] = (coq_measure(c, role), ("req", b))
+        out[name] = ("(All %s)" % coq_measure(c, role), ("req", b))
     return out
 
 
@@ -157,6 +172,13 @@ def apply_op(cats, paths, op):
             cats[op["cat"]].build_trees(None, closed=op["closed"], force=op["force"], max_workers=1)
         else:
             cats[op["cat"]].build_trees(EDGE_SETS[op["edges"]], closed=op["closed"], force=op["force"], max_workers=1)
+    elif kind == "build_patch":
+        from yaw.binning import Binning
+        from yaw.catalog.trees import BinnedTrees
+        cat = cats[op["cat"]]
+        pids = sorted(cat.keys())
+        binning = None if op["edges"] is None else Binning(EDGE_SETS[op["edges"]], closed=op["closed"])
+        BinnedTrees.build(cat[pids[patch_index(op, len(pids))]], binning, force=op["force"])
     elif kind == "build_invalid":
         try:
             cats[op["cat"]].build_trees(INVALID_EDGES[op["edges"]], closed=op["closed"], max_workers=1)
@@ -261,7 +283,7 @@ def run_history(ctx, tag, data, ops, record=True):
     for i, op in enumerate(ops):
         result = apply_op(cats, paths, op)
         if record:
-            for name, (cop, req) in requests(op).items():
+            for name, (cop, req) in requests(op, len(cats[CATS[0]])).items():
                 per[name]["ops"].append(cop)
                 per[name]["obs"].append(observe(cats[name]))
                 if i == len(ops) - 1:
@@ -300,7 +322,7 @@ def followup_for(op):
     search over prefixes: an unforced build of the same binning must then reuse the trees)"""
     if is_measure(op):
         return op
-    if op["op"] != "build":
+    if op["op"] not in ("build", "build_patch"):
         return None
     cat = op["cat"]
     others = [n for n in CATS if n != cat]
@@ -357,22 +379,25 @@ def one_history(ctx, idx, spec, terms, owners):
                  dict(spec), case=idx)
     if not same_result(fres, fflip)[0]:
         ctx.bump("closed_side_changes_final_result")
-    # coq terms: one per (catalog, patch)
+    # coq terms: one per catalog (state vector over its patches; patch ids are 0..n-1 = positions)
     for n in CATS:
         if not per[n]["ops"]:
             continue
         redshifts = {int(pid): [float(z) for z in patch.redshifts] for pid, patch in cats[n].items()}
+        pids = sorted(redshifts)
+        assert pids == list(range(len(pids))), pids
         final = per[n]["final"]
         fstr = "None" if final is None else "(Some %s)" % coq_binning(final[1])
-        for pid in sorted(redshifts):
-            terms.append("c07_case %s %s %s %s" % (
-                fq.lst(per[n]["ops"]), fq.qlist(redshifts[pid]),
-                fq.lst([coq_obs(o[pid]) for o in per[n]["obs"]]), fstr))
-            owners.append((idx, n, pid))
+        terms.append("c07_ccase %s %s %s %s" % (
+            fq.lst(per[n]["ops"]), fq.lst([fq.qlist(redshifts[p]) for p in pids]),
+            fq.lst([fq.lst([coq_obs(o[p]) for p in pids]) for o in per[n]["obs"]]), fstr))
+        owners.append((idx, n))
     nt = nontrivial(ops)
     ctx.count(key=(spec["dseed"], repr(ops)), nontrivial=nt, kind="final:%s/len%d" % (ops[-1]["op"], len(ops)))
     for op in ops[:-1]:
-        ctx.bump("op:" + op["op"] + (":force" if op.get("force") else "") + (":unbinned" if op["op"] == "build" and op["edges"] is None else ""))
+        ctx.bump("op:" + op["op"] + (":force" if op.get("force") else "") + (":unbinned" if op["op"] in ("build", "build_patch") and op["edges"] is None else ""))
+    if any(op["op"] == "build_patch" for op in ops):
+        ctx.bump("histories_with_single_patch_builds")
     ctx.sample(dict(spec=spec, final_request={n: per[n]["final"] for n in CATS},
                     observed_after_last_op={n: per[n]["obs"][-1] for n in CATS if per[n]["obs"]}), limit=3)
     for p in paths.values():
@@ -406,7 +431,15 @@ def rand_history(rng):
     ops = []
     for _ in range(rng.randrange(0, 8)):
         r = rng.random()
-        if r < 0.42:
+        if r < 0.14:   # build ONE patch (first / last / any), mostly for a binning close to the final one
+            if rng.random() < 0.2:
+                e, cl = None, rng.choice(["left", "right"])
+            else:
+                c = rand_cfg(rng, final["cfg"])
+                e, cl = c["edges"], c["closed"]
+            ops.append(dict(op="build_patch", cat=rng.choice(CATS), patch=rng.choice([0, 0, -1, -1, 1]), edges=e, closed=cl,
+                            force=rng.random() < 0.25))
+        elif r < 0.42:
             if rng.random() < 0.3:
                 ops.append(dict(op="build", cat=rng.choice(CATS), edges=None, closed=rng.choice(["left", "right"]),
                                 force=rng.random() < 0.3))
@@ -429,7 +462,21 @@ def corpus():
     auto = lambda cfg, d="X": dict(op="auto", cfg=cfg, data=d, rand="R")  # noqa: E731
     cross = lambda cfg, ref, unk, rr="ref_rand": dict(op="cross", cfg=cfg, ref=ref, unk=unk, rand="R", rand_role=rr)  # noqa: E731
     build = lambda cat, e, cl="right", force=False: dict(op="build", cat=cat, edges=e, closed=cl, force=force)  # noqa: E731
+    bpatch = lambda cat, p, e, cl="right", force=False: dict(op="build_patch", cat=cat, patch=p, edges=e, closed=cl, force=force)  # noqa: E731
     return [
+        # patches of one catalog hold trees for DIFFERENT binnings (same bin count):
+        # all patches hold A, only patch 0 is rebuilt for B, then measure with B
+        [auto(c(0, "right")), bpatch("X", 0, 2, "right"), auto(c(2, "right"))],
+        # mirror image: all patches hold B, only the LAST patch is rebuilt for A, then measure with B
+        [auto(c(2, "right")), bpatch("X", -1, 0, "right"), auto(c(2, "right"))],
+        # the same with the closed side as the only difference, on the random catalog, forced single-patch build
+        [auto(c(0, "left")), bpatch("R", 0, 0, "right", True), auto(c(0, "right"))],
+        [auto(c(0, "right"), "Y"), bpatch("R", -1, 0, "left"), bpatch("Y", 1, 0, "left"), auto(c(0, "right"), "Y")],
+        # a single patch unbinned among binned ones and vice versa (roles swap afterwards)
+        [auto(c(1, "left")), bpatch("X", 0, None), cross(c(1, "left"), "Y", "X")],
+        [cross(c(0, "right"), "Y", "X"), bpatch("X", 0, 0, "right"), auto(c(0, "right"))],
+        # single-patch build on a fresh cache (the other patches have no files yet)
+        [bpatch("X", 0, 3, "left"), bpatch("R", -1, 3, "left"), auto(c(3, "left"))],
         # same edges, other closed side
         [build("X", 0, "left"), build("R", 0, "left"), auto(c(0, "right"))],
         [auto(c(0, "right")), auto(c(0, "left"))],
@@ -477,21 +524,21 @@ def run_specs(ctx, all_specs):
                      dict(spec, traceback=traceback.format_exc()[-1500:]), case=idx)
     codes = ctx.shards("Cases_C07", HEADER, terms, shard=200)
     bad = {}
-    for (idx, name, pid), c in zip(owners, codes):
+    for (idx, name), c in zip(owners, codes):
         if c:
-            bad.setdefault(idx, []).append((name, pid, c))
+            bad.setdefault(idx, []).append((name, c))
     searched = 0
     for idx, lst in sorted(bad.items()):
         spec = done[idx]
         allc = 0
-        for _, _, c in lst:
+        for _, c in lst:
             allc |= c
         if allc & 4:
             ctx.obligation("harness:c07-final-request(case %d)" % idx, False, repr(lst))
         if allc & 2:
             ctx.fail("c07-trees-not-those-of-requested-binning",
                      "after the final build the cached trees / binning file of a patch are not those of the requested "
-                     "binning (catalog, patch, code): %s" % lst[:4], dict(spec), case=idx)
+                     "binning in every patch (catalog, code): %s" % lst[:4], dict(spec), case=idx)
         if allc & 1:
             ctx.disagree("Cases_C07", idx, dict(cases=lst[:6], spec=spec))
             if searched < 12:     # search budget
